@@ -101,6 +101,15 @@ func newShared() *shared {
 	return s
 }
 
+// coldTimes: in a cold process every call of the configuration is made by three goroutines, so that whatever the
+// first use of something sets up is set up by several of them at once.
+func coldTimes(cs []concCall) []concCall {
+	if os.Getenv("VERIF_CONC_BYTES") == "" {
+		return cs
+	}
+	return append(append(append([]concCall{}, cs...), cs...), cs...)
+}
+
 // fillCount: the repeat count a Fill call uses. In a cold process (conc-cold) it is above 255 and different for every
 // call position, so that concurrent fills need indices no earlier call of the process has used.
 func (s *shared) fillCount(c concCall) int {
@@ -212,7 +221,7 @@ func driverConc(c *Ctx) {
 		if !c.want(i) {
 			continue
 		}
-		cs := configs[i]
+		cs := coldTimes(configs[i])
 		cj := []interface{}{}
 		for _, x := range cs {
 			cj = append(cj, J{"op": x.Op, "obj": x.Obj})
@@ -326,7 +335,7 @@ func driverConcCold(c *Ctx) {
 	for j, i := range pick {
 		ref := newShared()
 		ref.cold = true
-		for k, x := range rows[i] {
+		for k, x := range append(append(append([]concCall{}, rows[i]...), rows[i]...), rows[i]...) {
 			refs[j] = append(refs[j], ref.exec(x, fmt.Sprintf("_%d_ref_%d", i, k), k))
 		}
 	}
@@ -343,8 +352,10 @@ func driverConcCold(c *Ctx) {
 			defer func() { <-sem }()
 			i := pick[j]
 			cj := []interface{}{}
-			for _, x := range rows[i] {
-				cj = append(cj, J{"op": x.Op, "obj": x.Obj})
+			for rep := 0; rep < 3; rep++ {
+				for _, x := range rows[i] {
+					cj = append(cj, J{"op": x.Op, "obj": x.Obj})
+				}
 			}
 			for a := 0; a < c.N; a++ {
 				tmp, _ := os.CreateTemp("", "cold-*.ndjson")
